@@ -196,6 +196,25 @@ func observe(seed int64, nInputs, reps int) []map[string]any {
 		"/CIDInit /ProcSet findresource begin\n12 dict begin\nbegincmap\n/CMapType 1 def\n1 begincodespacerange <00> <FF> endcodespacerange\n" +
 			"1 begincidchar <20> 7 endcidchar\nendcmap\n/Demo-V currentdict /CMap defineresource pop\n/Demo-H currentdict /CMap defineresource pop\n" +
 			"/Demo-A currentdict /CMap defineresource pop\nend\nend\n")})
+	// metrics files the reader accepts although a glyph box is not a number: what is written from them is
+	// the same every time all the same
+	inputs = append(inputs, corpus.Input{Name: "afm-nan-box", Entry: "afm", Data: []byte("StartFontMetrics 4.1\nFontName NaNBox\n" +
+		"StartCharMetrics 4\nC 65 ; WX 500 ; N A ; B NaN 0 100 200 ;\nC 66 ; WX 500 ; N B ; B 10 -20 300 400 ;\n" +
+		"C 67 ; WX 500 ; N C ; B -50 5 20 900 ;\nC 68 ; WX 500 ; N D ; B 0 0 NaN NaN ;\nEndCharMetrics\nEndFontMetrics\n")})
+	for _, in := range inputs {
+		if in.Entry != "afm" {
+			continue
+		}
+		if m, err := afm.Read(bytes.NewReader(in.Data)); err == nil {
+			for r := 0; r < 4*reps; r++ {
+				var buf bytes.Buffer
+				m.Write(&buf)
+				rec("afm.Read+Metrics.Write", in.Name, sha(buf.Bytes()), r)
+				bb := m.FontBBoxPDF()
+				rec("afm.Read+FontBBoxPDF", in.Name, fmt.Sprint(bb), r)
+			}
+		}
+	}
 	// two passes over all inputs: every input is read before and after every other one
 	nrep := min(reps, 6)
 	for pass := 0; pass < 2; pass++ {
@@ -206,6 +225,8 @@ func observe(seed int64, nInputs, reps int) []map[string]any {
 			}
 		}
 	}
+	// the package's table once more, after every reader and writer has run
+	rec("psenc.StandardEncoding", "table", sha([]byte(strings.Join(psenc.StandardEncoding[:], " "))), 2)
 	_ = ps.NewInterpreter
 	return out
 }
